@@ -142,6 +142,9 @@ pub struct ModelSpec<T: HScalar> {
     /// hand-written only: multiply row i of every evaluation / derivative by rowscale[i]
     /// (the "scaled model" of property C06)
     pub rowscale: Option<Vec<T>>,
+    /// hand-written only: the model computes from a copy of the parameters that only set_params fills (the trait documentation names
+    /// set_params as the place to cache calculations); before the first set_params it evaluates at all-zero parameters
+    pub lazy: bool,
 }
 
 impl<T: HScalar> ModelSpec<T> {
@@ -159,6 +162,7 @@ impl<T: HScalar> ModelSpec<T> {
                 .get("rowscale")
                 .filter(|f| !f.is_null())
                 .map(|a| a.as_array().unwrap().iter().map(sc::<T>).collect()),
+            lazy: v.get("lazy").and_then(|b| b.as_bool()).unwrap_or(false),
         }
     }
 }
@@ -178,13 +182,25 @@ pub struct HandModel<T: HScalar> {
     spec: ModelSpec<T>,
     x: DVector<T>,
     params: DVector<T>,
+    /// lazy models: what evaluation uses (filled by set_params only)
+    active: Option<DVector<T>>,
 }
 
 impl<T: HScalar> HandModel<T> {
     pub fn new(spec: ModelSpec<T>) -> Self {
         let x = DVector::from_vec(spec.x.clone());
         let params = DVector::from_vec(spec.init.clone());
-        HandModel { spec, x, params }
+        HandModel { spec, x, params, active: None }
+    }
+    fn eval_params(&self) -> DVector<T> {
+        if self.spec.lazy {
+            match &self.active {
+                Some(a) => a.clone(),
+                None => DVector::from_element(self.spec.nparams, T::of_f64(0.0)),
+            }
+        } else {
+            self.params.clone()
+        }
     }
 }
 
@@ -212,6 +228,7 @@ impl<T: HScalar> SeparableNonlinearModel for HandModel<T> {
                 return Err(HErr("domain".into()));
             }
         }
+        self.active = Some(parameters.clone());
         self.params = parameters;
         Ok(())
     }
@@ -222,8 +239,9 @@ impl<T: HScalar> SeparableNonlinearModel for HandModel<T> {
         let n = self.x.len();
         let m = self.spec.basis.len();
         let mut out = DMatrix::<T>::zeros(n, m);
+        let pars = self.eval_params();
         for (j, b) in self.spec.basis.iter().enumerate() {
-            let a: Vec<T> = b.deps().iter().map(|&p| self.params[p]).collect();
+            let a: Vec<T> = b.deps().iter().map(|&p| pars[p]).collect();
             for i in 0..n {
                 out[(i, j)] = quant(b.value(self.x[i], &a), self.spec.quant);
                 if let Some(rs) = &self.spec.rowscale {
@@ -240,9 +258,10 @@ impl<T: HScalar> SeparableNonlinearModel for HandModel<T> {
         let n = self.x.len();
         let m = self.spec.basis.len();
         let mut out = DMatrix::<T>::zeros(n, m);
+        let pars = self.eval_params();
         for (j, b) in self.spec.basis.iter().enumerate() {
             let deps = b.deps();
-            let a: Vec<T> = deps.iter().map(|&p| self.params[p]).collect();
+            let a: Vec<T> = deps.iter().map(|&p| pars[p]).collect();
             // a parameter may occur at several positions of one function's list: sum the partials
             for (pos, &p) in deps.iter().enumerate() {
                 if p == k {
